@@ -718,6 +718,29 @@ where
     }
 }
 
+#[cfg(discv5_verif)]
+impl<TNodeId, TVal> KBucketsTable<TNodeId, TVal>
+where
+    TNodeId: Clone,
+    TVal: Eq,
+{
+    /// Verification hook: moves the eligibility instant of every pending node `d` into the
+    /// past (virtual passage of time). Nothing is applied.
+    pub fn verif_age(&mut self, d: Duration) {
+        for bucket in self.buckets.iter_mut() {
+            if let Some(pending) = bucket.pending_mut() {
+                let at = pending.verif_ready_at();
+                pending.set_ready_at(at.checked_sub(d).expect("instant underflow"));
+            }
+        }
+    }
+
+    /// Verification hook: the key of the local node.
+    pub fn verif_local_key(&self) -> &Key<TNodeId> {
+        &self.local_key
+    }
+}
+
 /// An iterator over (some projection of) the closest entries in a
 /// `KBucketsTable` w.r.t. some target `Key`.
 struct ClosestIter<'a, TTarget, TNodeId, TVal: Eq, TMap, TOut> {
